@@ -231,6 +231,20 @@ def timer_path(chk, pid, thorough, rnd):
     moment.replay_b(chk, pid, rnd, domain[0], domain[2], None if thorough else 700, 3 if thorough else 2)
 
 
+def rebumped(events):
+    '''the source of some (algorithm, target) changes AGAIN after that unit has already executed once in this history:
+    two run ids are alive for one target (known finding C02-rebump-older-runid)'''
+    for i, e in enumerate(events):
+        if e['ev'] != 'Bump':
+            continue
+        for j in range(i + 1, len(events)):
+            if events[j]['ev'] == 'ExecReply' and events[j]['alg'] == e['alg'] and events[j]['t'] == e['t']:
+                if any(x['ev'] == 'Bump' and x['alg'] == e['alg'] and x['t'] == e['t'] for x in events[j + 1 :]):
+                    return True
+                break
+    return False
+
+
 def data_plane(chk, pid, thorough, seed, rnd):
     '''C02 end-state part: spec/Sched_Data.tla (MC) + real scheduler with the abstract pure-function worker'''
     c = dict(consts(ALG3, 'Programs3Alg', 10), MaxBump='2' if thorough else '1')
@@ -301,11 +315,14 @@ def data_plane(chk, pid, thorough, seed, rnd):
             if clause.startswith(pid + '.'):
                 job = ebyid[tid]
                 kinds = [e['ev'] for e in job['events']]
-                sig = 'e2e:' + (','.join(kinds[: line - 1]) if line - 1 <= len(kinds) else ','.join(kinds) + ',drain')
+                sig = ('e2e-rebump:' if rebumped(job['events']) else 'e2e:') + (','.join(kinds[: line - 1]) if line - 1 <= len(kinds) else ','.join(kinds) + ',drain')
                 chk.add_violation(clause, sig, {'trace': tid, 'line': line, 'event': ev}, {'e2e_job': job, 'line': line})
     # ---- and through the REAL worker entry point worker.cluster.execute() over in-memory sockets (register, wait, task,
     #      status poll, response) -- a prefix of the same schedules
-    pjobs = [dict(j, id=i) for i, j in enumerate(ejobs[: 1500 if thorough else 60])]
+    # (the worker takes whichever unit the farm hands it and the farm dispatches inside the call: the event-by-event
+    #  reading of Sched_Data_Trace holds for histories with ONE source change; those are the ones replayed this way)
+    single = [j for j in ejobs if sum(1 for e in j['events'] if e['ev'] == 'Bump') <= 1]
+    pjobs = [dict(j, id=i) for i, j in enumerate(single[: 1500 if thorough else 60])]
     pfiles = chk.run_harness('proto_h', pjobs)
     chk.traces += len(pjobs)
     prows = chk.validate('Sched_Data_Trace.tla', dict(spec='TraceSpec', constants=dict(consts(ALG3, None, 10**6, 10**6), MaxBump='1000000'), extra=['POSTCONDITION AllConsumed']), pfiles, tags=('CLAUSE', 'CONSUMED'), name='Sched_Data_Trace_proto')
